@@ -219,6 +219,72 @@ def _prod(shape):
     return p
 
 
+
+# ------------------------------------------------------------------ generic fallback for un-modelled NumPy API
+# A change to pyrepseq may use NumPy functions / ndarray methods this model does not cover.  Rather than giving up on the path, the call is
+# run by the REAL NumPy on object-dtype arrays whose cells are the very same (possibly symbolic) values: NumPy then applies Python's
+# operators to the cells, which the tracer follows.  Typed-dtype effects (wrap-around, truncation) are NOT reproduced by an object array, so
+# a result obtained this way is marked on the run (LIFTED) and the usual rule applies: only what reproduces on the real stack is reported.
+# Never reached on the unchanged tree (its NumPy use is modelled completely - see `unmodelled_library_names_touched` in the evidence).
+LIFTED = []
+
+
+def _has_symbolic(vals):
+    return any(type(v).__module__.startswith("crosshair") or hasattr(v, "var") for v in vals)
+
+
+def _to_real(x):
+    if isinstance(x, NDArray):
+        nested = x.tolist() if x.ndim else x._d[0]
+        dt = x.dtype if isinstance(x.dtype, _np.dtype) and not _has_symbolic(x._d) else object
+        try:
+            arr = _np.empty(x.shape, dtype=dt)
+            if x.ndim:
+                flat = arr.reshape(-1)
+                for i, v in enumerate(x._d):
+                    flat[i] = v
+            return arr
+        except Exception:  # noqa
+            return _np.array(nested, dtype=object)
+    if type(x).__name__ == "Series" and hasattr(x, "_values"):
+        return _to_real(array(list(x._values)))
+    if isinstance(x, tuple):
+        return tuple(_to_real(v) for v in x)
+    if isinstance(x, list) and any(isinstance(v, NDArray) for v in x):
+        return [_to_real(v) for v in x]
+    return x
+
+
+def _from_real(r):
+    if isinstance(r, _np.ndarray):
+        flat = [v.item() if isinstance(v, _np.generic) else v for v in r.reshape(-1).tolist()] if r.dtype != object else list(r.reshape(-1))
+        return NDArray(flat, r.shape, None if r.dtype == object else r.dtype)
+    if isinstance(r, _np.generic):
+        return r.item()
+    if isinstance(r, tuple):
+        return tuple(_from_real(v) for v in r)
+    if isinstance(r, list):
+        return [_from_real(v) for v in r]
+    return r
+
+
+def lifted(real_fn, label):
+    def call(*a, **k):
+        LIFTED.append(label)
+        try:
+            res = real_fn(*[_to_real(x) for x in a], **{n: _to_real(v) for n, v in k.items()})
+        except ModelUnsupported:
+            raise
+        except (TypeError, ValueError, IndexError, KeyError, ZeroDivisionError, OverflowError) as e:
+            # the same error class the real library raises for these arguments is meaningful to the caller only when no cell is symbolic
+            if any(isinstance(x, NDArray) and _has_symbolic(x._d) for x in list(a) + list(k.values())):
+                raise ModelUnsupported(f"{label} on symbolic cells: {type(e).__name__}: {str(e)[:120]}")
+            raise
+        return _from_real(res)
+    call.__name__ = getattr(real_fn, "__name__", "lifted")
+    return call
+
+
 class NDArray:
     """Row-major list-backed array."""
     __module__ = "numpy"          # pyrepseq.util.ensure_numpy dispatches on type(x).__module__
@@ -228,6 +294,17 @@ class NDArray:
         self._d = data
         self.shape = tuple(shape)
         self.dtype = dtype if dtype is None or isinstance(dtype, _np.dtype) else (_norm_dtype(dtype) if dtype not in ("int",) else _np.dtype(int))
+
+    def __getattr__(self, name):
+        # un-modelled ndarray attribute: hand the call to the real NumPy on an object-dtype copy (see `lifted`)
+        if name.startswith("_") or not hasattr(_np.ndarray, name):
+            raise AttributeError(name)
+        real_attr = getattr(_np.ndarray, name)
+        if not callable(real_attr):
+            LIFTED.append("ndarray." + name)
+            return _from_real(getattr(_to_real(self), name))
+        me = self
+        return lifted(lambda *a, **k: getattr(_to_real(me), name)(*a, **k), "ndarray." + name)
 
     def _co(self, v):
         dt = self.dtype if isinstance(self.dtype, _np.dtype) else None
@@ -1154,7 +1231,13 @@ def make_proxy(real_numpy, fallthrough_log):
         "sqrt": sqrt, "floor": floor, "ceil": ceil, "isnan": isnan, "sort": sort, "amax": amax,
         "tril": tril, "triu": triu, "random": RANDOM, "ndarray": NDArray, "bincount": bincount, "full": full, "any": any_, "all": all_, "where": where, "triu_indices": triu_indices, "tril_indices": tril_indices, "size": lambda a: asarray(a).size,
     }
-    return ModuleProxy(real_numpy, over, fallthrough_log)
+    import types as _types
+
+    def wrap(name, val):
+        if callable(val) and not isinstance(val, (type, _types.ModuleType)):
+            return lifted(val, "numpy." + name)
+        return val
+    return ModuleProxy(real_numpy, over, fallthrough_log, wrap)
 
 
 def rf_cdist(queries, choices, *, scorer=None, **kw):
